@@ -95,6 +95,13 @@ Theorem image_maps_file_offsets : forall p bias a,
 Proof. exact image_maps_file_offsets_lemma. Qed.
 Print Assumptions image_maps_file_offsets.
 
+(* a [loaded_at] mapping is a piece of one of the mappings the loader model produces *)
+Theorem mapping_is_piece_of_load : forall ef bias m a p,
+  In p (e_progs ef) -> loaded_at ef bias m a p = true ->
+  exists img, In img (load ef bias) /\ pieceb m img = true.
+Proof. exact mapping_is_piece_of_load_lemma. Qed.
+Print Assumptions mapping_is_piece_of_load.
+
 (* -- symbol lookup -- *)
 Theorem addr_info_greatest_le : forall m a n, sortedb m = true -> addr_info m a = Some n ->
   exists s, In s m /\ sy_name s = n /\ sy_addr s <= a /\
